@@ -215,7 +215,7 @@ def text(rng):
 
 
 # ---------------------------------------------------------------------------------- schedules
-QUERIES = "swtihpPDeG"
+QUERIES = "swtihpPDeGxx"
 
 
 def _segments(n, cuts):
@@ -364,6 +364,6 @@ def schedule_solo(rng, n):
         out.append("%s%d" % (rng.choice("cCubj"), k))
         pos += k
         while rng.chance(1, 2):
-            out.append(rng.choice("swtihpPDeGFtikK"))
+            out.append(rng.choice("swtihpPDeGFtikKx"))
     out += ["t", "i", "E", "t", "i", "D"]
     return ",".join(out)
